@@ -20,7 +20,7 @@ fn export(f: Gc<ObjFunction>, out: &mut Vec<J>) -> usize {
                 json!({"k": "fn", "idx": idx, "upv": g.upvalue_count, "arity": g.arity})
             }
             Value::ObjString(s) => json!({"k": "str", "s": s.as_str()}),
-            Value::Number(_) => json!({"k": "num"}),
+            Value::Number(n) => json!({"k": "num", "v": n}),
             _ => json!({"k": "other"}),
         });
     }
